@@ -203,9 +203,32 @@ pub fn run_case(rng: &mut Rng) -> CaseOut {
     let mut out = CaseOut::default();
     let lang = &LSYM;
     let ns = rng.range(2, 3);
-    let ops: Vec<&'static str> = vec!["f", "g", "h", "k", "var", "c", "d", "e", "u", "w", "app", "pair", "lam", "sum", "let", "idx", "bb"];
+    let ops: Vec<&'static str> = vec!["f", "g", "h", "k", "var", "c", "d", "e", "u", "w", "app", "pair", "lam", "sum", "let", "idx", "bb", "ite"];
     let cfg = GenCfg { lang, ops, ns, max_depth: 2, max_names: 4, shadow: rng.chance(1, 3) };
-    let h = gen_history(rng, &cfg, 6, 5);
+    let mut h = gen_history(rng, &cfg, 6, 5);
+    // nodes whose children repeat a class at adjacent and at non-adjacent positions (only representative of their class,
+    // or the cheapest one after a union with something bigger)
+    if rng.chance(1, 3) && !h.terms.is_empty() {
+        for _ in 0..rng.range(1, 2) {
+            let a = h.terms[rng.below(h.terms.len())].clone();
+            let b = h.terms[rng.below(h.terms.len())].clone();
+            let t = match rng.below(3) {
+                0 => Tm::node("ite", vec![], vec![(vec![], a.clone()), (vec![], b), (vec![], a)]),
+                1 => Tm::node("ite", vec![], vec![(vec![], a.clone()), (vec![], a), (vec![], b)]),
+                _ => Tm::node("ite", vec![], vec![(vec![], b), (vec![], a.clone()), (vec![], a)]),
+            };
+            if t.max_names() <= 4 {
+                h.terms.push(t.clone());
+                h.ops.push(HOp::Add(h.terms.len() - 1));
+                if rng.chance(1, 2) {
+                    // a costlier member of the same class
+                    let big = Tm::node("u", vec![], vec![(vec![], Tm::node("u", vec![], vec![(vec![], Tm::node("w", vec![], vec![(vec![], t)]))]))]);
+                    h.terms.push(big);
+                    h.ops.push(HOp::Union(h.terms.len() - 2, h.terms.len() - 1));
+                }
+            }
+        }
+    }
     let mut eg: EGraph<LSym> = EGraph::default();
     let mut ids: BTreeMap<usize, AppliedId> = BTreeMap::new();
     let mut log = h.text(lang);
